@@ -112,7 +112,8 @@ let parse_op (toks : string list) : op =
 (* [classify toks model impl] is consulted on a mismatch: it names the known finding whose
    trigger predicate the current model state and operation satisfy, if any. It is evaluated
    on the state *before* the operation is applied to the model. *)
-type machine = { step : string list -> string; classify : string list -> string -> string -> string option }
+type machine = { step : string list -> string; classify : string list -> string -> string -> string option;
+                 dump : unit -> string }
 
 let starts_with (pre : string) (s : string) : bool =
   String.length s >= String.length pre && String.sub s 0 (String.length pre) = pre
@@ -191,7 +192,7 @@ let classify_m1 (st : mstate) (toks : string list) (model : string) (impl : stri
       let n = int_of_string v in
       let first = (match st.forest with (w, _) :: _ -> int_of_z w | [] -> 0) in
       if n < first && List.exists (fun w -> w <= n) (stale_candidates st) then finding else None
-  | [ "getv"; _; v ] when model = "nil" && starts_with "b:" impl ->
+  | [ "getv"; _; v ] when model = "nil" && (starts_with "b:" impl || impl = "err") ->
       let n = int_of_string v in
       let first = (match st.forest with (w, _) :: _ -> int_of_z w | [] -> 0) in
       if n < first && List.exists (fun w -> w <= n) (stale_candidates st) then finding else None
@@ -214,6 +215,8 @@ let classify_m1 (st : mstate) (toks : string list) (model : string) (impl : stri
       else if o = "save" && starts_with "fl(viol,op=save," impl && (has "kind=reopenerr," || has "kind=reopenmixture,") then Some "C05-split-commit"
       else if o = "lvfo" && (has "kind=mixture)" || has "kind=loaderr)") then Some "C05-split-rollback"
       else None
+  | "x" :: ("export" | "liveexport") :: _ when starts_with "loadversion:" impl -> Some "C20-export-db-unreadable"
+  | "x" :: ("snap" | "livesnap") :: _ when starts_with "savesnapshot-err:cannot_leafWrite_nil_node" impl -> Some "C20-empty-snapshot"
   | [ "avail" ] ->
       let mi = parse_ints model and ii = parse_ints impl in
       let extra = List.filter (fun x -> not (List.mem x mi)) ii in
@@ -299,6 +302,91 @@ let expected_changes (st : mstate) (a : int) (b : int) : string =
       done;
       "cs[" ^ String.concat "|" (List.rev !parts) ^ "]"
 
+(* --- C13: the stored bytes decoded by the extracted Coq decoders --- *)
+let show_ref (c : child_ref) : string =
+  match c with
+  | RefNew (v, n) -> Printf.sprintf "%d.%d" (int_of_z v) (let x = int_of_z n in if x = 0 then 1 else x)
+  | RefLegacy h -> "h" ^ hex_of_bytes h
+  | RefNone -> "none"
+
+(* "raw[hexkey=hexval;...]" -> the canonical "an[...]other=0" rendering (nonce 0 printed as 1) *)
+let decode_raw_nodes (raw : string) : string =
+  let body = String.sub raw 4 (String.length raw - 5) in
+  let ents = if body = "" then [] else String.split_on_char ';' body in
+  let items = List.filter_map (fun e ->
+      match String.split_on_char '=' e with
+      | [ k; v ] ->
+          let kb = bytes_of_tok k and vb = (if v = "" then [] else bytes_of_tok v) in
+          (match kb with
+           | p :: nk when int_of_n p = 115 && List.length nk = 12 ->
+               (match parse_node_key nk with
+                | DOk (ver, nonce) ->
+                    let nn = (let x = int_of_z nonce in if x = 0 then 1 else x) in
+                    let desc =
+                      (match classify_root vb with
+                       | RootEmpty -> "E"
+                       | RootRef13 (rv, rn) -> Printf.sprintf "R:%d.%d" (int_of_z rv) (let x = int_of_z rn in if x = 0 then 1 else x)
+                       | RootRef9 rv -> Printf.sprintf "R:%d.1" (int_of_z rv)
+                       | RootBadRef -> "BADREF"
+                       | RootNode ->
+                           (match decode_node nk vb with
+                            | DOk n ->
+                                (match n.rn_value with
+                                 | Some value -> "N:L," ^ hex_of_bytes n.rn_key ^ "," ^ hex_of_bytes value
+                                 | None -> Printf.sprintf "N:I,%d,%d,%s,%s,%s,%s" (int_of_z n.rn_height) (int_of_z n.rn_size)
+                                             (hex_of_bytes n.rn_key) (hex_of_bytes n.rn_hash) (show_ref n.rn_left) (show_ref n.rn_right))
+                            | DErr -> "DECODE-ERR"
+                            | DPanic -> "DECODE-PANIC")) in
+                    Some ((int_of_z ver, nn), desc)
+                | _ -> Some ((0, 0), "BADKEY"))
+           | _ -> None)
+      | _ -> None) ents in
+  let sorted = List.stable_sort (fun (a, _) (b, _) -> compare a b) items in
+  "an[" ^ String.concat ";" (List.map (fun ((v, n), d) -> Printf.sprintf "%d.%d=%s" v n d) sorted) ^ "]other=0"
+
+let raw_match (model : string) (impl : string) : bool =
+  starts_with "an[" model && starts_with "raw[" impl && (try decode_raw_nodes impl = model with _ -> false)
+
+(* --- C13 backward direction: the model state written out with the Coq ENCODERS --- *)
+let encode_db (st : mstate) : string =
+  let ents = ref [] in
+  let add k v = ents := (hex_of_bytes k ^ "=" ^ hex_of_bytes v) :: !ents in
+  let seen = Hashtbl.create 64 in
+  let rec walk (t : node) =
+    let m = node_meta t in
+    let key = (int_of_z m.ver, int_of_z m.nonce) in
+    if not (Hashtbl.mem seen key) then begin
+      Hashtbl.add seen key ();
+      let dbk = db_node_key (node_key_bytes m.ver m.nonce) in
+      match t with
+      | Leaf (k, v, _) ->
+          add dbk (encode_node { rn_height = Z0; rn_size = z_of_int 1; rn_key = k; rn_value = Some v; rn_hash = [];
+                                 rn_left = RefNone; rn_right = RefNone })
+      | Inner (k, h, sz, _, l, r) ->
+          let lm = node_meta l and rm = node_meta r in
+          add dbk (encode_node { rn_height = h; rn_size = sz; rn_key = k; rn_value = None; rn_hash = m.hs;
+                                 rn_left = RefNew (lm.ver, lm.nonce); rn_right = RefNew (rm.ver, rm.nonce) });
+          walk l; walk r
+    end in
+  List.iter (fun (v, r) ->
+      match r with
+      | None -> add (db_node_key (node_key_bytes v (z_of_int 1))) []
+      | Some t ->
+          walk t;
+          let m = node_meta t in
+          if not (int_of_z m.ver = int_of_z v && int_of_z m.nonce = 1) then
+            add (db_node_key (node_key_bytes v (z_of_int 1))) (root_ref_value m.ver m.nonce)) st.forest;
+  (* the fast index and its label describe the latest version *)
+  let rec last = function [] -> None | [ x ] -> Some x | _ :: r -> last r in
+  (match last st.forest with
+   | None -> ()
+   | Some (v, r) ->
+       (match r with
+        | Some t -> List.iter (fun (k, x, ver) -> add (db_fast_key k) (encode_fast_node (z_of_int ver) x)) (leaves_with_ver t [])
+        | None -> ());
+       add db_meta_key (fast_storage_label v));
+  String.concat ";" (List.rev !ents)
+
 let cfg_fast (params : string list) : bool =
   let cfg = header_param params "cfg" "" in
   List.mem "fast=true" (String.split_on_char ',' cfg)
@@ -320,6 +408,15 @@ let make_m1 (params : string list) : machine =
              | _ -> st := s1; "err")
         | "x" :: _ -> "ok"
         | [ "legacyend" ] -> "ok"
+        | [ "lprune"; _ ] -> "ok" (* DeleteVersionsTo below the latest legacy version: a documented no-op *)
+        | [ "ldel"; v ] ->
+            (* legacy DeleteVersion of one version (not the latest) *)
+            let v = int_of_string v in
+            let latest = List.fold_left (fun _ (w, _) -> int_of_z w) 0 !st.forest in
+            if v <> latest && List.exists (fun (w, _) -> int_of_z w = v) !st.forest then begin
+              st := { !st with forest = List.filter (fun (w, _) -> int_of_z w <> v) !st.forest };
+              "ok"
+            end else "err"
         | "hbound" :: t :: _ | "cost" :: t :: _ ->
             let is_h = (List.hd toks = "hbound") in
             if t = "w" || List.exists (fun (w, _) -> int_of_z w = int_of_string (String.sub t 1 (String.length t - 1))) !st.forest
@@ -356,6 +453,7 @@ let make_m1 (params : string list) : machine =
               end
             end
         | [ "audit"; "nodes" ] -> expected_nodes !st
+        | [ "audit"; "raw" ] -> expected_nodes !st
         | [ "audit"; "fast" ] -> if !fast then expected_fast !st else "*"
         | [ "reopen"; f ] when (f = "fast=true" || f = "fast=false") && (fast := (f = "fast=true"); false) -> ""
         | [ "r"; t; "export" ] ->
@@ -419,7 +517,8 @@ let make_m1 (params : string list) : machine =
                  let i = int_of_z i in
                  if empty_at (i - 1) || empty_at i then Some "C03-empty-value" else None
              | _ -> None)
-        | _ -> classify_m1 !prev toks model impl) }
+        | _ -> classify_m1 !prev toks model impl);
+    dump = (fun () -> encode_db !st) }
 
 (* ---------- machine kv: the storage backends (C18) ---------- *)
 let show_kverr = function ErrKeyEmpty -> "err:key" | ErrValueNil -> "err:val" | ErrBatchClosed -> "err:closed"
@@ -483,7 +582,7 @@ let make_kv (params : string list) : machine =
             let m', o = stepf !st (parse_kvop toks) in
             st := m';
             show_kvout o);
-    classify = (fun _ _ _ -> None) }
+    classify = (fun _ _ _ -> None); dump = (fun () -> "") }
 
 (* ---------- machine imp: the importer on arbitrary streams (C10) ---------- *)
 let parse_stream (tok : string) : enode option list =
@@ -506,10 +605,69 @@ let make_imp (_ : string list) : machine =
              | IErr -> "err;vis=none"
              | IPanic -> "panic")
         | _ -> failwith "bad imp op");
-    classify = (fun _ _ _ -> None) }
+    classify = (fun _ _ _ -> None); dump = (fun () -> "") }
+
+(* ---------- machine dec: the decoders of stored bytes on arbitrary input (C13) ---------- *)
+let rec int64_of_pos (p : positive) : int64 =
+  match p with
+  | XH -> 1L
+  | XO q -> Int64.mul 2L (int64_of_pos q)
+  | XI q -> Int64.add (Int64.mul 2L (int64_of_pos q)) 1L
+let dec_of_n (x : n) : string = match x with N0 -> "0" | Npos p -> Printf.sprintf "%Lu" (int64_of_pos p)
+let dec_of_z (x : z) : string =
+  match x with Z0 -> "0" | Zpos p -> Printf.sprintf "%Lu" (int64_of_pos p) | Zneg p -> "-" ^ Printf.sprintf "%Lu" (int64_of_pos p)
+let empty_tok (s : string) : bytes = if s = "." || s = "-" then [] else bytes_of_tok s
+let ref_hex (c : child_ref) : string =
+  match c with
+  | RefNew (v, n) -> hex_of_bytes (node_key_bytes v n)
+  | RefLegacy h -> hex_of_bytes h
+  | RefNone -> ""
+
+let make_dec (_ : string list) : machine =
+  { step = (fun toks ->
+        match toks with
+        | [ "dec"; "uvarint"; b ] ->
+            (match uvarint_dec (empty_tok b) with Some (v, n) -> Printf.sprintf "ok:%s,%d" (dec_of_n v) (int_of_nat n) | None -> "err")
+        | [ "dec"; "varint"; b ] ->
+            (match varint_dec (empty_tok b) with Some (v, n) -> Printf.sprintf "ok:%s,%d" (dec_of_z v) (int_of_nat n) | None -> "err")
+        | [ "dec"; "bytes"; b ] ->
+            (match bytes_dec (empty_tok b) with Some (x, n) -> Printf.sprintf "ok:%s,%d" (hex_of_bytes x) (int_of_nat n) | None -> "err")
+        | [ "dec"; "node"; b; nk ] ->
+            let nkb = empty_tok nk in
+            (match decode_node nkb (empty_tok b) with
+             | DOk n ->
+                 let ver = (match parse_node_key nkb with DOk (v, _) -> dec_of_z v | _ -> "?") in
+                 (match n.rn_value with
+                  | Some v -> Printf.sprintf "ok:L,h=%s,s=%s,ver=%s,k=%s,v=%s" (dec_of_z n.rn_height) (dec_of_z n.rn_size) ver (hex_of_bytes n.rn_key) (hex_of_bytes v)
+                  | None -> Printf.sprintf "ok:I,h=%s,s=%s,ver=%s,k=%s,hash=%s,l=%s,r=%s" (dec_of_z n.rn_height) (dec_of_z n.rn_size) ver
+                              (hex_of_bytes n.rn_key) (hex_of_bytes n.rn_hash) (ref_hex n.rn_left) (ref_hex n.rn_right))
+             | DErr -> "err"
+             | DPanic -> "panic")
+        | [ "dec"; "legacy"; b; h ] ->
+            (match decode_legacy_node (empty_tok h) (empty_tok b) with
+             | DOk n ->
+                 (match n.ln_value with
+                  | Some v -> Printf.sprintf "ok:L,h=%s,s=%s,ver=%s,k=%s,v=%s" (dec_of_z n.ln_height) (dec_of_z n.ln_size) (dec_of_z n.ln_version) (hex_of_bytes n.ln_key) (hex_of_bytes v)
+                  | None -> Printf.sprintf "ok:I,h=%s,s=%s,ver=%s,k=%s,hash=%s,l=%s,r=%s" (dec_of_z n.ln_height) (dec_of_z n.ln_size) (dec_of_z n.ln_version)
+                              (hex_of_bytes n.ln_key) (hex_of_bytes (empty_tok h)) (hex_of_bytes n.ln_left) (hex_of_bytes n.ln_right))
+             | DErr -> "err"
+             | DPanic -> "panic")
+        | [ "dec"; "fast"; b; k ] ->
+            (match decode_fast_node (empty_tok k) (empty_tok b) with
+             | DOk n -> Printf.sprintf "ok:F,ver=%s,v=%s" (dec_of_z n.fn_version) (hex_of_bytes n.fn_value)
+             | DErr -> "err"
+             | DPanic -> "panic")
+        | [ "dec"; "root"; b ] ->
+            let bb = empty_tok b in
+            (match classify_root bb with
+             | RootEmpty -> "ok:empty"
+             | RootNode -> "ok:false,0"
+             | _ -> Printf.sprintf "ok:true,%d" (List.length bb))
+        | _ -> failwith "bad dec op");
+    classify = (fun _ _ _ -> None); dump = (fun () -> "") }
 
 let machines : (string * (string list -> machine)) list ref =
-  ref [ ("m1", make_m1); ("kv", make_kv); ("imp", make_imp) ]
+  ref [ ("m1", make_m1); ("m1l", make_m1); ("kv", make_kv); ("imp", make_imp); ("dec", make_dec) ]
 
 (* ---------- trace replay ---------- *)
 let split_ws s = List.filter (fun x -> x <> "") (String.split_on_char ' ' s)
@@ -521,6 +679,7 @@ let () =
   let lineno = ref 0 in
   let args = Array.to_list Sys.argv in
   let echo = List.mem "--echo" args in
+  let emit_db = List.mem "--emit-db" args in
   let known = ref [] and nknown = ref 0 in
   List.iter (fun a -> if starts_with "--known=" a then
                 known := String.split_on_char ',' (String.sub a 8 (String.length a - 8))) args;
@@ -539,7 +698,12 @@ let () =
               | None -> failwith ("unknown machine " ^ kind))
          | _ -> failwith "bad case header"
        end
-       else if line = "E" then cur := None
+       else if line = "E" then begin
+         (match !cur with
+          | Some m when emit_db -> Printf.printf "DB %s %s\n" !cur_id (m.dump ())
+          | _ -> ());
+         cur := None
+       end
        else begin
          match !cur with
          | None -> ()
@@ -556,7 +720,7 @@ let () =
               | None -> if echo then Printf.printf "%s => %s\n" opstr got else incr skipped
               | Some e ->
                   if e <> got && not (got = "*" && not (starts_with "panic" e)) && not (entrywise_match got e)
-                     && not (got = "panic" && starts_with "panic" e)
+                     && not (got = "panic" && starts_with "panic" e) && not (raw_match got e)
                      && not (crash_match got e) then begin
                     match (if List.length !known = 0 then None else m.classify (split_ws opstr) got e) with
                     | Some f when List.mem f !known ->
